@@ -95,8 +95,25 @@ class P(Prop):
                 names = [rnd.choice([b"Host", b"HOST", b"host", b"X-A", b"x-a", b"Range", "ü".encode()]) for _ in range(rnd.randint(0, 5))]
                 hspec = ";".join(hx(nm) + ":" + hx(b"v%d" % k) for k, nm in enumerate(names)) or "-"
                 q = rnd.choice([b"host", b"Host", b"X-a", b"RANGE", b"missing", "ü".encode()])
+                if rnd.random() < 0.25:
+                    # letter case outside ASCII (Latin-1, Cyrillic, Greek without sigma: one-to-one mappings on which Python's and Rust's
+                    # tables agree): implementation only, the model's case mapping is ASCII (see ASSUMPTIONS)
+                    base = rnd.choice(["x-ключ", "größe-é", "ñandú", "x-αβγ", "ÿ-þ", "x-ж1", "ü"])
+                    def recase(t): return "".join(rnd.choice([c.lower(), c.upper() if len(c.upper()) == 1 else c]) for c in t)
+                    names = [recase(base).encode() if rnd.random() < 0.7 else rnd.choice([b"Host", b"X-A"]) for _ in range(rnd.randint(1, 4))]
+                    hspec = ";".join(hx(nm) + ":" + hx(b"v%d" % k) for k, nm in enumerate(names))
+                    q = recase(base).encode() if rnd.random() < 0.85 else (base + "x").encode()
+                    out.append("gethdr %s %s # unicase=1" % (hspec, hx(q)))
+                    continue
                 out.append("gethdr %s %s" % (hspec, hx(q)))
         return out
+
+    # lookups whose names differ in the case of non-ASCII letters: the model's case mapping is ASCII, so these go to the implementation only
+    def model_input(self, line, impl_out):
+        return "noop" if "unicase=1" in line else line
+
+    def canon(self, line, out):
+        return "SKIP" if "unicase=1" in line else out
 
     def classify(self, line, out, sig):
         return {"request-line-with-empty-target-accepted": "C14-F1"}.get(sig)
